@@ -169,3 +169,99 @@ Definition top_struct (S : schema) (ty : string) : bool :=
 Definition top_keywords (S : schema) : list string :=
   filter (fun k => match struct_of S k with Some (ty, _) => top_struct S ty | None => false end)
          (map fst (sc_aliases S) ++ map fst (sc_names S)).
+
+(* ------------------------------------------------------------------ which error is reported, and where
+   (serves C16's sentence on errors from building a module).  Declarative reading of Go's evaluation
+   order: depth-first, substatements in source order, then the three required checks.  [reports S s e]:
+   the first thing wrong with s, in that order, is e = (kind, position). *)
+
+Definition berr := (ekind * option nat)%type.
+
+(* a substatement the loop gets past *)
+Definition sub_ok (S : schema) (sd : sdef) (x : stmt) : Prop :=
+  match classify sd (kw_of x) with
+  | KField _ => ~ rejects S x
+  | KExt => field_of sd "Ext" <> None
+  | KUnknown => False
+  end.
+
+(* a run of substatements the loop gets past *)
+Definition prefix_ok (S : schema) (sd : sdef) (l : list stmt) : Prop :=
+  Forall (sub_ok S sd) l /\
+  forall f t, In f (s_fields sd) -> f_kind f = FSingle t -> length (kids (f_key f) l) <= 1.
+
+Definition missing1 (sd : sdef) (subs : list stmt) : Prop :=
+  exists f, In f (s_fields sd) /\ f_required f = true /\ ~ In (f_key f) (kws subs).
+Definition missing2 (sd : sdef) (kw : string) (subs : list stmt) : Prop :=
+  exists f, In f (s_fields sd) /\ In kw (f_reqkinds f) /\ ~ In (f_key f) (kws subs).
+Definition otherkind (sd : sdef) (kw : string) (subs : list stmt) : Prop :=
+  exists f n, In f (s_fields sd) /\ In n (f_reqkinds f) /\ n <> kw /\ In (f_key f) (kws subs).
+
+Inductive reports (S : schema) : stmt -> berr -> Prop :=
+| RepUnknownStmt : forall kw ha a i subs,
+    struct_of S kw = None ->
+    reports S (Stmt kw ha a i subs) (EUnknownStmt, Some i)                  (* at the statement *)
+| RepUnknownField : forall kw ha a i subs ty sd l1 x l2,
+    struct_of S kw = Some (ty, Some sd) -> subs = (l1 ++ x :: l2)%list -> prefix_ok S sd l1 ->
+    classify sd (kw_of x) = KUnknown ->
+    reports S (Stmt kw ha a i subs) (EUnknownField, Some (id_of x))         (* at the unknown substatement *)
+| RepNoExt : forall kw ha a i subs ty sd l1 x l2,
+    struct_of S kw = Some (ty, Some sd) -> subs = (l1 ++ x :: l2)%list -> prefix_ok S sd l1 ->
+    classify sd (kw_of x) = KExt -> field_of sd "Ext" = None ->
+    reports S (Stmt kw ha a i subs) (ENoExt, Some (id_of x))                (* at the extension statement *)
+| RepAlreadySet : forall kw ha a i subs ty sd l1 x l2 f t,
+    struct_of S kw = Some (ty, Some sd) -> subs = (l1 ++ x :: l2)%list -> prefix_ok S sd l1 ->
+    classify sd (kw_of x) = KField f -> f_kind f = FSingle t -> In (kw_of x) (kws l1) ->
+    reports S (Stmt kw ha a i subs) (EAlreadySet, None)                     (* errors.New: no position *)
+| RepChild : forall kw ha a i subs ty sd l1 x l2 f e,
+    struct_of S kw = Some (ty, Some sd) -> subs = (l1 ++ x :: l2)%list -> prefix_ok S sd l1 ->
+    classify sd (kw_of x) = KField f ->
+    (forall t, f_kind f = FSingle t -> ~ In (kw_of x) (kws l1)) ->
+    reports S x e ->
+    reports S (Stmt kw ha a i subs) e                                       (* the substatement's own error *)
+| RepMissing : forall kw ha a i subs ty sd,
+    struct_of S kw = Some (ty, Some sd) -> prefix_ok S sd subs ->
+    missing1 sd subs ->
+    reports S (Stmt kw ha a i subs) (EMissing, Some i)                      (* at the statement that lacks it *)
+| RepMissingKind : forall kw ha a i subs ty sd,
+    struct_of S kw = Some (ty, Some sd) -> prefix_ok S sd subs ->
+    ~ missing1 sd subs -> missing2 sd kw subs ->
+    reports S (Stmt kw ha a i subs) (EMissingKind, Some i)                  (* at the statement that lacks it *)
+| RepOtherKind : forall kw ha a i subs ty sd,
+    struct_of S kw = Some (ty, Some sd) -> prefix_ok S sd subs ->
+    ~ missing1 sd subs -> ~ missing2 sd kw subs -> otherkind sd kw subs ->
+    reports S (Stmt kw ha a i subs) (EOtherKind, Some i).                   (* at the PARENT (known finding) *)
+
+(* statement ids of a tree, pre-order *)
+Fixpoint ids (s : stmt) : list nat :=
+  match s with Stmt _ _ _ i subs => i :: flat_map ids subs end.
+
+(* t is s or a substatement filed under a field, recursively: the statements build visits *)
+Inductive filed (S : schema) : stmt -> stmt -> Prop :=
+| FiledHere : forall s, filed S s s
+| FiledSub : forall kw ha a i subs ty sd x f t,
+    struct_of S kw = Some (ty, Some sd) -> In x subs -> classify sd (kw_of x) = KField f ->
+    filed S x t -> filed S (Stmt kw ha a i subs) t.
+
+(* what a reported (kind, position) points at *)
+Definition site (S : schema) (s : stmt) (k : ekind) (pos : option nat) : Prop :=
+  match k with
+  | EUnknownStmt => exists t, filed S s t /\ pos = Some (id_of t) /\ struct_of S (kw_of t) = None
+  | EUnknownField =>          (* the unknown substatement itself *)
+      exists t ty sd x, filed S s t /\ struct_of S (kw_of t) = Some (ty, Some sd) /\ In x (subs_of t) /\
+        classify sd (kw_of x) = KUnknown /\ pos = Some (id_of x)
+  | ENoExt =>
+      exists t ty sd x, filed S s t /\ struct_of S (kw_of t) = Some (ty, Some sd) /\ In x (subs_of t) /\
+        classify sd (kw_of x) = KExt /\ field_of sd "Ext" = None /\ pos = Some (id_of x)
+  | EAlreadySet => pos = None
+  | EMissing =>               (* the statement that lacks the mandatory substatement *)
+      exists t ty sd, filed S s t /\ struct_of S (kw_of t) = Some (ty, Some sd) /\
+        missing1 sd (subs_of t) /\ pos = Some (id_of t)
+  | EMissingKind =>
+      exists t ty sd, filed S s t /\ struct_of S (kw_of t) = Some (ty, Some sd) /\
+        missing2 sd (kw_of t) (subs_of t) /\ pos = Some (id_of t)
+  | EOtherKind =>             (* pinned: the parent, not the offending substatement *)
+      exists t ty sd, filed S s t /\ struct_of S (kw_of t) = Some (ty, Some sd) /\
+        otherkind sd (kw_of t) (subs_of t) /\ pos = Some (id_of t)
+  | ENotModule => False
+  end.
